@@ -297,7 +297,11 @@ def corpus():
     big = ('[Tabulation]\ntarget : LAMMPS\nnr : 6001\ncutoff : 6.0\n[Potential-Form]\nbm2(r, A, b) = A*exp(-b*r)\nmix(r, A, b, c) = bm2(r, A, b) + c/r\n'
            '[Pair]\nA-A : bm2 1000.0 3.0\nA-B : bm2 500.0 2.0\nB-B : mix 250.0 1.5 -0.5\n')
     c6 = {'kind': 'seeds', 'text': big, 'seeds': [0, 1, 2]}
-    return [c1, c2, c3, c4, c5, c6]
+    # an evaluation that FAILS (C/r^6 at r = 0 inside an inclusive range) leaves nothing behind: later energies and writes are those of a newly built model
+    ft = ('[Tabulation]\ntarget : LAMMPS\nnr : 6\ncutoff : 3.0\n[Potential-Form]\nbk(r, A, rho, C) = as.buck(r, A, rho, C)\nsq(r, A) = A*pymath.sqrt(r - 1.0)\n'
+          '[Pair]\nO-O : >=0 bk 1000.0 0.3 32.0\nO-U : >=0 sq 2.0\nU-U : sum(bk 500.0 0.25 10.0, as.constant 1.0)\n')
+    c7 = {'kind': 'failed_eval', 'text': ft, 'history': [[0, 0.2], [0, 0.0], [0, 0.2], [1, 0.5], [1, 2.0], [0, 1.0], [2, 0.0], [2, 1.5], [1, 0.25], [0, 0.2]]}
+    return [c1, c2, c3, c4, c5, c6, c7]
 
 def correspond(ctx):
     rng = ctx['rng']
@@ -352,6 +356,24 @@ def oracle(case):
             a = write_tab(tab); b = write_tab(tab)
             if a != b: fails.append('writing the same tabulation twice gives different bytes')
         except Exception as e: return ['a model whose formulas assign to their parameters raised %s: %s' % (type(e).__name__, str(e)[:120])]
+        return fails[:4]
+    if k == 'failed_eval':
+        from atsim.potentials.config import Configuration
+        def ev(tab, i, r):
+            try: return ('v', tab.potentials[i].energy(r))
+            except Exception as e: return ('exc', type(e).__name__)
+        same = lambda a, b: a == b or (a[0] == b[0] == 'v' and a[1] != a[1] and b[1] != b[1])
+        try:
+            tab = Configuration().read(io.StringIO(case['text'])); fails = []
+            for n, (i, r) in enumerate(case['history']):
+                got = ev(tab, i, r); want = ev(Configuration().read(io.StringIO(case['text'])), i, r)
+                if not same(got, want): fails.append('potential %d at r = %r after %d earlier evaluations (some of which failed) gives %r, a newly built model gives %r' % (i, r, n, got, want)); break
+            try: a = ('v', write_tab(tab))
+            except Exception as e: a = ('exc', type(e).__name__)
+            try: b = ('v', write_tab(Configuration().read(io.StringIO(case['text']))))
+            except Exception as e: b = ('exc', type(e).__name__)
+            if a != b: fails.append('writing after a history with failed evaluations gives %s, a newly built model %s' % (a[0] if a[0] == 'v' else a, b[0] if b[0] == 'v' else b))
+        except Exception as e: return ['a model with evaluations that fail raised %s: %s' % (type(e).__name__, str(e)[:120])]
         return fails[:4]
     if k == 'seeds':
         w = check_seeds(case); return [w] if w else []
